@@ -29,12 +29,14 @@ Record pnode := mkPN {
 
 Inductive pmsg :=
 | VoteReq (from t : N)
-| Grant (from to t : N).
+| Grant (from to t : N)
+| LeaderMsg (from t : N).      (* anything sent as leader of term t: append, heartbeat, snapshot *)
 
 Definition pmsg_eqb (a b : pmsg) : bool :=
   match a, b with
   | VoteReq f t, VoteReq f' t' => (f =? f') && (t =? t')
   | Grant f o t, Grant f' o' t' => (f =? f') && (o =? o') && (t =? t')
+  | LeaderMsg f t, LeaderMsg f' t' => (f =? f') && (t =? t')
   | _, _ => false
   end.
 
@@ -67,6 +69,7 @@ Inductive label :=
 | LReleaseReq (n t : N)          (* release a vote request for a durably self-voted term *)
 | LGrant (n c t : N)             (* volatile grant of n's vote to c in term t *)
 | LReleaseGrant (n t : N)        (* release the grant of a durable vote *)
+| LReleaseLeader (n t : N)       (* release a message sent as leader of term t *)
 | LRecvGrant (c n : N)           (* candidate c records n's grant for its current term *)
 | LBecomeLeader (c : N)
 | LUpdateTerm (n t : N)          (* any message with a higher term *)
@@ -84,7 +87,7 @@ Section Rules.
     match l with
     | LCampaign n =>
         let p := nodes s n in
-        if p_up p then
+        if p_up p && negb (n =? 0) then
           Some (set_node s n (mkPN true (p_term p + 1) n PC [n] (p_dterm p) (p_dvote p) (p_imgs p)))
         else None
     | LImage n =>
@@ -120,6 +123,13 @@ Section Rules.
     | LReleaseGrant n t =>
         match voted s n t with
         | Some c => if c =? n then None else Some (add_msg s (Grant n c t))
+        | None => None
+        end
+    | LReleaseLeader n t =>
+        (* leader traffic is released only once the leader's own vote of that term is durable *)
+        match voted s n t with
+        | Some c => if (c =? n) && existsb (N.eqb n) (leaders s t)
+                    then Some (add_msg s (LeaderMsg n t)) else None
         | None => None
         end
     | LRecvGrant c n =>
